@@ -183,7 +183,7 @@ def stepFsop (st : St) (ins impl : List String) : Option (St × String) := do
       | .ok s' => ("ok", s')
       | .error er => (errName er, st.fs)
     let known := dedup (st.known ++ paths [e])
-    let dump := (known.mergeSort leBytes).flatMap fun p =>
+    let dump := ((known.filter (· != [])).mergeSort leBytes).flatMap fun p =>
       match visible s' p with
       | none => [hexEncode p, "0", "-"]
       | some c => [hexEncode p, "1", hexEncode c]
@@ -216,7 +216,7 @@ def step' (st : St) (line : String) : St × String :=
         else if op == "C14.fsop" then stepFsop st ins impl
         else if op == "C14.put" then
           match ins with
-          | [p] => (hexDecode p).map fun p =>
+          | p :: _ => (hexDecode p).map fun p =>
               -- a token of its own: 2^62 + number of paths known so far + save number
               ({ st with fs := putFile st.fs p [4611686018427387904 + st.known.length * 1024 + st.saveNo],
                          known := dedup (p :: st.known) },
